@@ -8,9 +8,9 @@ package tmpl
 
 import (
 	"fmt"
-	"regexp"
 	"go/ast"
 	"go/types"
+	"regexp"
 	"sort"
 	"strconv"
 	"strings"
@@ -23,12 +23,12 @@ import (
 
 // Lexical states of Go source.
 const (
-	LCode    = "code"
-	LLine    = "line-comment"
-	LBlock   = "block-comment"
-	LString  = "string"
-	LRaw     = "raw-string"
-	LRune    = "rune"
+	LCode   = "code"
+	LLine   = "line-comment"
+	LBlock  = "block-comment"
+	LString = "string"
+	LRaw    = "raw-string"
+	LRune   = "rune"
 )
 
 // Value kinds produced by a pipeline.
@@ -94,25 +94,25 @@ type TypeFinding struct {
 }
 
 type Evaluator struct {
-	F        *Forest
-	Gen      *packages.Package
-	FuncRes  map[string]types.Type // FuncMap name -> first result type
-	FuncSig  map[string]*types.Signature
-	Known    map[string]bool
-	Sprig    map[string]bool
-	Accesses int
-	Unknown  int
-	Findings []TypeFinding
-	Emits    []Emission
-	CommentedCode []CommentedCode
-	Undefined []string // calls to undefined templates
-	UnknownFuncs map[string]string // function name -> first use position
-	insts    map[string][]string // memo: key -> exit set
-	inprog   map[string]bool
+	F              *Forest
+	Gen            *packages.Package
+	FuncRes        map[string]types.Type // FuncMap name -> first result type
+	FuncSig        map[string]*types.Signature
+	Known          map[string]bool
+	Sprig          map[string]bool
+	Accesses       int
+	Unknown        int
+	Findings       []TypeFinding
+	Emits          []Emission
+	CommentedCode  []CommentedCode
+	Undefined      []string            // calls to undefined templates
+	UnknownFuncs   map[string]string   // function name -> first use position
+	insts          map[string][]string // memo: key -> exit set
+	inprog         map[string]bool
 	Instantiations map[string]bool
-	FuncUses map[string]int
-	stack    []string
-	rootName string
+	FuncUses       map[string]int
+	stack          []string
+	rootName       string
 	// Qualifiers: root -> package qualifier -> first use position; Imports: root -> names imported by the root's import block
 	Qualifiers map[string]map[string]string
 }
@@ -308,8 +308,8 @@ type env struct {
 	inst string
 }
 
-func (e *env) push()              { e.vars = append(e.vars, map[string]Val{}) }
-func (e *env) pop()               { e.vars = e.vars[:len(e.vars)-1] }
+func (e *env) push()               { e.vars = append(e.vars, map[string]Val{}) }
+func (e *env) pop()                { e.vars = e.vars[:len(e.vars)-1] }
 func (e *env) set(n string, v Val) { e.vars[len(e.vars)-1][n] = v }
 func (e *env) assign(n string, v Val) {
 	for i := len(e.vars) - 1; i >= 0; i-- {
@@ -828,7 +828,6 @@ func ownerOf(bt types.Type, f *types.Var) string {
 	}
 	return found
 }
-
 
 var qualRx = regexp.MustCompile(`(^|[^A-Za-z0-9_.\])}])([a-z][a-z0-9]*)\.[A-Z][A-Za-z0-9_]*`)
 
